@@ -95,6 +95,15 @@ fn constant<'tcx>(cx: &mut Ctx<'tcx>, owner: DefId, c: &Const<'tcx>) -> J {
             return J::Obj(vec![("int", J::Int(v)), ("ty", J::s(tys))]);
         }
     }
+    // pointers to statics: name the static
+    if ty.is_ref() || ty.is_raw_ptr() {
+        if let Some(rustc_middle::mir::interpret::Scalar::Ptr(ptr, _)) = c.try_eval_scalar(tcx, tenv) {
+            let aid = ptr.provenance.alloc_id();
+            if let Some(rustc_middle::mir::interpret::GlobalAlloc::Static(sdid)) = tcx.try_get_global_alloc(aid) {
+                return J::Obj(vec![("static", J::s(def_path(tcx, sdid))), ("ty", J::s(tys))]);
+            }
+        }
+    }
     // string literals and everything else: debug rendering
     let mut s = format!("{}", c);
     if s.len() > 200 {
